@@ -63,11 +63,13 @@ def extra_obligations():
     import re
     import subprocess
     import core
-    from translate.c08_translate import generate as gen, TranslationError
+    from translate.c08_translate import generate_parts
+    short = {n.split(".")[-1]: n for n in TRANSLATED}
     try:
-        text = gen(core.REPO)
-    except (TranslationError, SyntaxError, OSError, RecursionError, KeyError, IndexError, AttributeError) as e:
-        return [{"name": n, "ok": False, "detail": f"translator rejected the source: {type(e).__name__}: {e}"} for n in TRANSLATED]
+        text, errs = generate_parts(core.REPO)
+    except Exception as e:  # the translator itself failed: every obligation is open
+        return [{"name": n, "ok": False, "detail": f"translator failed: {type(e).__name__}: {e}"} for n in TRANSLATED]
+    errs = {short.get(k, k): v for k, v in errs.items()}
     tmp = core.LEAN_DIR / ".lake" / "audit"
     tmp.mkdir(parents=True, exist_ok=True)
     f = tmp / f"C08Translated_{os.getpid()}.lean"
@@ -80,13 +82,16 @@ def extra_obligations():
         except OSError:
             pass
     out = " ".join(((p.stdout or "") + (p.stderr or "")).split())
-    tables = text[text.find("def surgery"):text.find("end KrroodVerif.Rdr.Translated")]
+    tables = text[text.find("namespace KrroodVerif.Rdr.Translated"):text.find("end KrroodVerif.Rdr.Translated")]
     res = []
     for n in TRANSLATED:
+        if n in errs:
+            res.append({"name": n, "ok": False, "axioms": None, "detail": errs[n]})
+            continue
         m = re.search(r"'" + re.escape(n) + r"' depends on axioms: \[([^\]]*)\]", out)
         none = re.search(r"'" + re.escape(n) + r"' does not depend on any axioms", out)
         ax = [a.strip() for a in m.group(1).split(",")] if m else ([] if none else None)
-        ok = ax is not None and set(ax) <= core.ALLOWED_AXIOMS and ("sorryAx" not in out)
+        ok = ax is not None and set(ax) <= core.ALLOWED_AXIOMS  # a failed `decide` leaves `sorryAx` in ITS axioms line
         # a table equality that fails is not added to the environment (no axioms line), and the theorem that uses it
         # then fails too: each obligation is judged by its own `#print axioms` line
         res.append({"name": n, "ok": ok, "axioms": ax,
